@@ -18,6 +18,9 @@ structure St where
   vol : Vol := ⟨emptyTTL, 0, [], false, 0⟩
   spec : List SpecEntry := []
   pending : List (Nat × Int) := []
+  fstore : FStore := []
+  /-- spec side of the filer: key ↦ (crtime of the current incarnation, ttlSec) -/
+  fspec : List (Nat × Nat × Nat) := []
 
 def absSec (base : Nat) (age : Int) : Nat := ((base : Int) - age).toNat
 
@@ -31,6 +34,12 @@ def readResultStr : ReadResult → String
 
 def hbStr : HbResult → String
   | .listed => "listed" | .expired => "expired" | .deleted => "deleted" | .novol => "novol"
+
+def insertSorted (k : Nat) : List Nat → List Nat
+  | [] => [k]
+  | x :: xs => if k ≤ x then k :: x :: xs else x :: insertSorted k xs
+
+def sortNats (l : List Nat) : List Nat := l.foldr insertSorted []
 
 def step (st : St) (n : Nat) (ln : Line) : St × List String :=
   let a := ln.args
@@ -52,6 +61,44 @@ def step (st : St) (n : Nat) (ln : Line) : St × List String :=
       else if 60 * ttlMinutes t = s.toNat then "COV sec2ttl.exact"
       else if 60 * ttlMinutes t < s.toNat then "COV sec2ttl.rounded-down" else "COV sec2ttl.rounded-up"
     (st, diff n ln model ++ gdiff ++ judgeOut n (sec2ttlJudge s implMin) (a.getD 0 "") ++ [cov])
+  | "resetf" => ({ st with fstore := [], fspec := [] }, diff n ln ["ok"])
+  | "fput" =>
+    let key := tokNat (a.getD 0 ""); let ttl := tokNat (a.getD 1 "0")
+    let crt := absSec st.base (tokInt (a.getD 2 "0")); let mt := absSec st.base (tokInt (a.getD 3 "0"))
+    let chunk : Chunk := ⟨(readTTL (SwV.Gen.C09.SecondsToTTL ttl).toList).1, nowNs⟩
+    let old := (ffind st.fstore nowNs key).1
+    let chunks := (match old with | some o => o.chunks | none => []) ++ [chunk]
+    let fs' := fput st.fstore nowNs key ⟨ttl, crt, mt, chunks⟩
+    -- spec: a new incarnation starts when there is none or the previous one is due; otherwise Crtime stays
+    let sp' := match st.fspec.find? (·.1 = key) with
+      | some (_, c0, t0) => if entryDue t0 c0 nowNs then (key, crt, ttl) else (key, c0, ttl)
+      | none => (key, crt, ttl)
+    ({ st with fstore := fs', fspec := sp' :: st.fspec.filter (·.1 ≠ key) }, diff n ln ["ok"] ++
+      [if old.isSome then "COV filer.update-keeps-crtime" else "COV filer.create"])
+  | "ffind" =>
+    let key := tokNat (a.getD 0 "")
+    let (r, fs') := ffind st.fstore nowNs key
+    let model := match r with
+      | some e => ["visible", toString e.ttlSec, toString e.chunks.length]
+      | none => ["notfound"]
+    let implVisible := o.getD 0 "" == "visible"
+    let j := match st.fspec.find? (·.1 = key) with
+      | some (_, c0, t0) => visibilityJudge t0 c0 nowNs implVisible
+      | none => none
+    let cov := match flookup st.fstore key with
+      | some e => if entryVisible e nowNs then "COV filer.visible"
+                  else if nowNs ≤ (e.mtime + e.ttlSec) * nsPerSec then "COV filer.expired-with-fresh-mtime" else "COV filer.expired"
+      | none => "COV filer.absent"
+    ({ st with fstore := fs' }, diff n ln model ++ judgeOut n j s!"key={key}" ++ [cov])
+  | "flist" =>
+    let vis := flist st.fstore nowNs
+    let keys := sortNats (vis.map (·.1))
+    let model := [if keys.isEmpty then "-" else String.intercalate "," (keys.map toString)]
+    let implKeys := if o.getD 0 "-" == "-" then [] else (o.getD 0 "").splitOn ","
+    let js := st.fspec.flatMap fun (k, c0, t0) => judgeOut n (visibilityJudge t0 c0 nowNs (implKeys.contains (toString k))) s!"list key={k}"
+    let cov := st.fstore.map fun ke => if entryVisible ke.2 nowNs then "COV filer.list-visible"
+      else if nowNs ≤ (ke.2.mtime + ke.2.ttlSec) * nsPerSec then "COV filer.list-expired-with-fresh-mtime" else "COV filer.list-expired"
+    ({ st with fstore := vis }, diff n ln model ++ js ++ cov)
   | "reset" =>
     let (t, ok) := readTTL (tokChars (a.getD 0 "-"))
     let base := tokNat (o.getD 1 "20717") * 86400 + 43200
